@@ -12,6 +12,7 @@ CONSTANTS
   AbortAfterPartial = TRUE
   EndMarkerOnlyOnSuccess = TRUE
   CopyErrorReturned = TRUE
+  DumpRowErrorsReturned = TRUE
 CONSTRAINT HW
 POSTCONDITION Accepted
 CHECK_DEADLOCK FALSE
